@@ -2,6 +2,7 @@ package main
 
 import (
 	"go/ast"
+	"go/scanner"
 	"go/token"
 	"os"
 	"sort"
@@ -185,6 +186,7 @@ func (p *Program) anchorLoops(fn *ssa.Function, li *loopInfo) {
 		if lc.At == "" {
 			continue
 		}
+		taken[n] = true // an anchored contract binds by its anchor only, never by position
 		at := normWS(lc.At)
 		hit := -1
 		cnt := 0
@@ -194,15 +196,66 @@ func (p *Program) anchorLoops(fn *ssa.Function, li *loopInfo) {
 				cnt++
 			}
 		}
+		if cnt == 0 {
+			// the header may have been touched by a rename: compare with the loop's own variables wildcarded and the
+			// locals the contract describes (locals.go) called what they are called now
+			want := loopHeaderShape(at, func(id string) string {
+				if nn := p.currentNames(fc, fn, id); len(nn) > 0 {
+					return nn[0]
+				}
+				return id
+			})
+			// a header that equals the anchor outranks headers that merely contain it
+			for i, t := range text {
+				if loopHeaderShape(t, nil) == want {
+					hit = i
+					cnt++
+				}
+			}
+			if cnt != 1 {
+				cnt = 0
+				for i, t := range text {
+					if strings.Contains(loopHeaderShape(t, nil), want) {
+						hit = i
+						cnt++
+					}
+				}
+			}
+		}
+		if cnt == 0 {
+			// last resort: any identifier of the anchor may stand for any local variable in the header
+			for i, l := range loops {
+				if p.headerMatchesModuloLocals(l, at, true) {
+					hit = i
+					cnt++
+				}
+			}
+			if cnt != 1 {
+				cnt = 0
+				for i, l := range loops {
+					if p.headerMatchesModuloLocals(l, at, false) {
+						hit = i
+						cnt++
+					}
+				}
+			}
+		}
+		if cnt == 0 {
+			// the header itself was edited (a constant, an operator): the loop whose header differs from the anchor in
+			// one token only, if there is exactly one such loop
+			for i, l := range loops {
+				if p.headerDistance(l, at) == 1 {
+					hit = i
+					cnt++
+				}
+			}
+		}
 		if cnt == 1 {
 			if _, dup := claimed[hit]; !dup {
 				claimed[hit] = n
 				taken[n] = true
 			}
 		}
-	}
-	if len(claimed) == 0 {
-		return
 	}
 	for i, h := range li.headers {
 		if n, ok := claimed[i]; ok {
@@ -318,4 +371,170 @@ func cmdAnchors(args []string) int {
 		}
 	}
 	return 0
+}
+
+// loopHeaderShape re-tokenises the text of a loop header, replaces the variables the header itself declares (the names
+// before :=) by "_" and passes every other identifier that is not a selector through subst.
+func loopHeaderShape(src string, subst func(string) string) string {
+	fs := token.NewFileSet()
+	f := fs.AddFile("", fs.Base(), len(src))
+	var sc scanner.Scanner
+	sc.Init(f, []byte(src), nil, 0)
+	type tk struct {
+		tok token.Token
+		lit string
+	}
+	var toks []tk
+	for {
+		_, tok, lit := sc.Scan()
+		if tok == token.EOF {
+			break
+		}
+		if tok == token.SEMICOLON && lit == "\n" {
+			continue
+		}
+		if lit == "" {
+			lit = tok.String()
+		}
+		toks = append(toks, tk{tok, lit})
+	}
+	own := map[string]bool{}
+	for i, t := range toks {
+		if t.tok == token.DEFINE {
+			for _, u := range toks[:i] {
+				if u.tok == token.IDENT {
+					own[u.lit] = true
+				}
+			}
+			break
+		}
+	}
+	var out []string
+	for i, t := range toks {
+		l := t.lit
+		if t.tok == token.IDENT && (i == 0 || toks[i-1].tok != token.PERIOD) {
+			if own[l] {
+				l = "_"
+			} else if subst != nil {
+				l = subst(l)
+			}
+		}
+		out = append(out, l)
+	}
+	return strings.Join(out, " ")
+}
+
+type hdrTok struct {
+	lit   string
+	ident bool
+	local bool
+}
+
+func scanToks(src string, base int, locals map[int]bool) []hdrTok {
+	fs := token.NewFileSet()
+	f := fs.AddFile("", fs.Base(), len(src))
+	var sc scanner.Scanner
+	sc.Init(f, []byte(src), nil, 0)
+	var out []hdrTok
+	for {
+		pos, tok, lit := sc.Scan()
+		if tok == token.EOF {
+			break
+		}
+		if tok == token.SEMICOLON && lit == "\n" {
+			continue
+		}
+		if lit == "" {
+			lit = tok.String()
+		}
+		out = append(out, hdrTok{lit: lit, ident: tok == token.IDENT, local: locals[base+f.Offset(pos)]})
+	}
+	return out
+}
+
+// headerToks tokenises the header of loop l and marks the identifiers that denote local variables.
+func (p *Program) headerToks(l ast.Stmt) []hdrTok {
+	var lb token.Pos
+	switch s := l.(type) {
+	case *ast.ForStmt:
+		lb = s.Body.Lbrace
+	case *ast.RangeStmt:
+		lb = s.Body.Lbrace
+	default:
+		return nil
+	}
+	pk, _ := p.pkgOfPos(l.Pos())
+	tf := p.fset.File(l.Pos())
+	if pk == nil || tf == nil {
+		return nil
+	}
+	p.srcBetween(l.Pos(), l.Pos())
+	p.mu.Lock()
+	b := p.srcCache[tf.Name()]
+	p.mu.Unlock()
+	lo, hi := tf.Offset(l.Pos()), tf.Offset(lb)
+	if lo < 0 || hi > len(b) || lo > hi {
+		return nil
+	}
+	locals := map[int]bool{}
+	ast.Inspect(l, func(n ast.Node) bool {
+		if n != nil && n.Pos() >= lb {
+			return false
+		}
+		if id, ok := n.(*ast.Ident); ok {
+			if obj := pk.TypesInfo.ObjectOf(id); obj != nil && isLocalVar(pk, obj) {
+				locals[tf.Offset(id.Pos())] = true
+			}
+		}
+		return true
+	})
+	return scanToks(string(b[lo:hi]), lo, locals)
+}
+
+func tokMatches(hdr []hdrTok, k int, a hdrTok) bool {
+	h := hdr[k]
+	return a.lit == h.lit || (h.local && a.ident && (k == 0 || hdr[k-1].lit != "."))
+}
+
+// headerMatchesModuloLocals: the anchor occurs in the header of loop l when identifiers of the anchor are allowed to
+// stand for local variables of the header (whatever they are called now).
+func (p *Program) headerMatchesModuloLocals(l ast.Stmt, anchor string, whole bool) bool {
+	hdr := p.headerToks(l)
+	at := scanToks(anchor, 0, nil)
+	if len(at) == 0 || len(hdr) == 0 {
+		return false
+	}
+	for o := 0; o+len(at) <= len(hdr); o++ {
+		if whole && (o != 0 || len(at) != len(hdr)) {
+			break
+		}
+		ok := true
+		for j := range at {
+			if !tokMatches(hdr, o+j, at[j]) {
+				ok = false
+				break
+			}
+		}
+		if ok {
+			return true
+		}
+	}
+	return false
+}
+
+// headerDistance: number of tokens in which the whole header of l differs from the anchor (modulo locals); -1 when the
+// two have different lengths.
+func (p *Program) headerDistance(l ast.Stmt, anchor string) int {
+	hdr := p.headerToks(l)
+	at := scanToks(anchor, 0, nil)
+	if len(at) == 0 || len(at) != len(hdr) {
+		return -1
+	}
+	d := 0
+	for j := range at {
+		if !tokMatches(hdr, j, at[j]) {
+			d++
+		}
+	}
+	return d
 }
